@@ -80,6 +80,8 @@ pub fn reconcile(spec: &AirSpec, info: &TraceInfo) -> AirSpec {
         let ok = match s.rules[i] {
             Rule::FibA => i + 1 < w && s.rules[i + 1] == Rule::FibB,
             Rule::FibB => i >= 1 && s.rules[i - 1] == Rule::FibA,
+            Rule::FibC => i + 1 < w && s.rules[i + 1] == Rule::FibD,
+            Rule::FibD => i >= 1 && s.rules[i - 1] == Rule::FibC,
             Rule::Periodic { cycle, .. } => cycle >= 2 && cycle <= n && cycle.is_power_of_two(),
             Rule::Periodic2 { cycle_a, cycle_b } => [cycle_a, cycle_b].iter().all(|c| *c >= 2 && *c <= n && c.is_power_of_two()),
             Rule::Rot { order } => order >= 2 && order <= n && order.is_power_of_two(),
@@ -216,6 +218,8 @@ impl<B: Fld> Air for SpecAir<B> {
                 Rule::Rot { order } => next[i] - E::from(B::get_root_of_unity(order.ilog2())) * cur[i],
                 Rule::FibA => next[i] - cur[i + 1],
                 Rule::FibB => next[i] - (cur[i - 1] + cur[i]),
+                Rule::FibC => next[i] - (cur[i] + cur[i + 1]),
+                Rule::FibD => next[i] - (cur[i] + next[i - 1]),
             };
         }
     }
